@@ -15,6 +15,44 @@ class ClassExpansions:
         self.cache = {}       # class qual -> (derived dict name->Term, base set)
         self._stores = None
 
+    def _param_class(self, fi, pname):
+        cache = self.__dict__.setdefault('_param_classes', {})
+        if (fi.qual, pname) in cache:
+            return cache[(fi.qual, pname)]
+        from .argbind import resolve_callee
+        found = set()
+        ok = True
+        n_sites = 0
+        for caller in self.prog.functions.values():
+            if isinstance(caller.node, ast.Lambda):
+                continue
+            for c in ast.walk(caller.node):
+                if not isinstance(c, ast.Call):
+                    continue
+                rc = resolve_callee(self.prog, caller, c)
+                if rc is None or rc[0] is not fi:
+                    continue
+                if (self.prog.enclosing_function(caller.module, c) or caller) is not caller:
+                    continue
+                n_sites += 1
+                formals = fi.params()
+                arg = None
+                for kw in c.keywords:
+                    if kw.arg == pname:
+                        arg = kw.value
+                if arg is None and pname in formals and formals.index(pname) < len(c.args):
+                    arg = c.args[formals.index(pname)]
+                o = caller
+                while o is not None and o.cls is None:
+                    o = o.parent
+                if isinstance(arg, ast.Name) and arg.id == 'self' and o is not None and o.cls is not None:
+                    found.add(o.cls.qual)
+                else:
+                    ok = False
+        res = found.pop() if (ok and n_sites and len(found) == 1) else None
+        cache[(fi.qual, pname)] = res
+        return res
+
     def _store_sites(self):
         """attr name -> set of function quals that store it (by attribute name, any receiver)."""
         if self._stores is not None:
@@ -47,6 +85,12 @@ class ClassExpansions:
                         while o is not None and o.cls is None:
                             o = o.parent
                         recv_cls = o.cls.qual if o is not None else None
+                    if recv_cls is None and isinstance(n, ast.Attribute) and isinstance(n.value, ast.Name) and owner.cls is None \
+                            and owner.parent is None and n.value.id in owner.params():
+                        # a plain function storing an attribute of one of its parameters (a helper extracted from a method):
+                        # the receiver's class is the class of the methods that hand their own `self` to that parameter,
+                        # when every call site in the package does
+                        recv_cls = self._param_class(owner, n.value.id)
                     out.setdefault(name, set()).add((owner.qual, recv_cls))
         self._stores = out
         return out
